@@ -33,10 +33,15 @@ CHECKS = {
     text="Exploration: the C02 generator plus failing commands of each documented category, errexit on/off/toggled, EXIT trap; trace up to the abort point, nothing after it, status (exact where documented, else non-zero), EXIT probe exactly once and last. Bounded random search with shrinking.",
     note="Trusted: reference interpreter (errexit = option on and no dynamically enclosing condition context; shell-error table from docs/src/termination.md). Syntax-error categories are covered by C18, not here.",
     design="4/C10"),
+ "C15": dict(
+    technique="property-based testing / stateful: exhaustive enumeration of small task systems + proptest larger ones, instrumented futures, invariants over the poll/wake log and equality with a pure FIFO reference scheduler; run_until_stalled vs step() differential",
+    text="Exploration: every system of 1-3 tasks x <=3 actions over 2 channels (6-7 action letters), every parent/child spawn-join system (quick), a strided walk over 4 tasks x <=4 actions (thorough), and random systems of <=8 scripts x <=10 actions; each run twice (run_until_stalled and a step() loop). Invariants: no lost wake-up at a stall, no poll after Ready, no re-entrant poll, no poll without a wake, bounded bypass, wake_count bounds, receiver yields its value exactly once, genuine stall; and the whole log equals a queue-with-duplicate-suppression reference model.",
+    note="Trusted: the instrumented futures and the reference scheduler in harness/src/props/c15.rs. The exact FIFO order is asserted because the property names a FIFO wake queue; the docs only say 'queue'. Re-queuing of completed tasks by stale wakers is tolerated (not constrained by the property).",
+    design="4/C15"),
  "C16": dict(
-    technique="property-based testing: exhaustive + proptest operation trees on VariableSet in lock-step with a naive stack-of-maps model (API half); script half pending",
-    text="Exploration: every operation tree of <=4 (quick) / <=5 (thorough) mutating operations over 2 names x 2 values x 8 action lists at nesting <=3, plus random trees of <=30 operations, executed on the real VariableSet and on a naive stack-of-maps model; every result, error and the whole observable state compared after each step.",
-    note="Trusted: the naive model in harness/src/props/c16a.rs (documented behaviour of get_or_new/unset/iter/env_c_strings). Covers the VariableSet API; the language-level half (temporary assignments, function locals, exported environment) is exercised only indirectly until the script driver is added.",
+    technique="property-based testing: exhaustive + proptest operation trees on VariableSet in lock-step with a naive stack-of-maps model; proptest scripts on the virtual shell vs a stack-of-scopes model incl. the environment passed to execve",
+    text="Exploration: (API) every operation tree of <=4 (quick) / <=5 (thorough) mutating operations over 2 names x 2 values x 8 action lists at nesting <=3, plus random trees of <=30 operations, executed on the real VariableSet and on a naive stack-of-maps model, everything compared after each step; (scripts) 60k (quick) / 3M (thorough) generated programs with temporary assignments on every command kind, function locals, positional parameters, read-only marks and all assigners, compared with a model of the manual at every snapshot, at every execve environment and at the end.",
+    note="Trusted: the two models (c16a.rs, c16b.rs). Whether a prefix assignment of a special built-in sets the export attribute is treated as unspecified (manual and code disagree; POSIX leaves it open). Undocumented interactions of function bodies with a caller's temporary assignment are skipped and counted.",
     design="4/C16"), "C03": dict(
     technique="property-based testing: exhaustive small-tree enumeration + proptest random trees/token soup against an i128 reference evaluator; metamorphic constant-vs-variable relation",
     text="Exploration: every expression tree of depth<=2 over all operators on boundary operands (quick: depth 1 complete, depth 2 strided; thorough: complete), millions of random deeper trees, token soup and arbitrary text, each compared with an independent exact evaluator (value, final variables, or 'must be an error'). Bounded search, not a proof: absence of wrong results is only shown for what was generated.",
@@ -62,15 +67,25 @@ CHECKS = {
     text="Exploration: a grid of 19 boundary sizes x 4 trailing-newline counts x 8 shapes x 40 (quick) / 400 (thorough) schedules, random sizes up to 4x pipe capacity with shrinkable scripted schedules, and a depth-first enumeration of schedules for four small transfers; received bytes / $( ) value / here-document body must equal what was produced. Bounded.",
     note="Trusted: probe built-ins gen/cat/sink, harness scheduler, preemption hooks. Only the simulated pipe implementation (PIPE_BUF 512, PIPE_SIZE 1024) is exercised.",
     design="4/C14"),
+ "C17": dict(
+    technique="property-based testing / differential: exhaustive alias tables x line templates; the real parser with the table vs the real parser without aliases on the harness' textual substitution (reference tokenizer + command-position model); look-up counter as termination oracle; 10% executed",
+    text="Exploration: every alias table over 3 (quick) / 4 (thorough) names x 22 value shapes (other names, trailing blank, reserved words, operators, redirections, assignments, quoted, empty, self-reference, newline) x 44 / 120 command-line templates; printed parse of L with table T must equal printed parse of the hand-substituted L' (or both syntax errors); more than 10 000 alias look-ups = non-termination; a sample is executed and traces compared. Bounded.",
+    note="Trusted: the substitution model in harness/src/props/c17.rs and the alias-free parser (itself judged by C06). Global aliases are checked at parser API level only (yash-rs has no alias -g).",
+    design="4/C17"),
  "C18": dict(
     technique="property-based testing / metamorphic: proptest scripts fed as -c string, script file, stdin file and stdin pipe written in generated chunk sizes under generated schedules; compared with a reference line-at-a-time interpretation",
     text="Exploration: random scripts (alias definitions and uses, read consuming following lines, multi-line commands, here-documents, eval/source of multi-line text, planted syntax errors, offset probes) run in four feeding modes; probe traces, read values, here-document data, status and (for seekable stdin) the descriptor offset after each command must equal the reference and hence each other. Bounded.",
     note="Trusted: the reference interpretation in harness/src/props/c18.rs, the helper process that feeds the pipe (vsys.rs). The pipe feeder yields between chunks so the scheduler interleaves reader and writer; the real OS is not used.",
     design="4/C18"),
+ "C19": dict(
+    technique="property-based testing / differential: proptest scripts from a 122-statement catalogue run by the same generic shell main on RealSystem (child process in a scratch directory) and on VirtualSystem; stdout, exit status, stderr emptiness and final file tree diffed",
+    text="Exploration: every catalogue statement alone and in two fixed contexts, plus 8k (quick) / 400k (thorough) random scripts of 3-10 statements over redirections, descriptor juggling, cd, globbing, pipelines, substitutions, here-documents, read, subshells, umask, traps with self-signals, background jobs and wait, and error cases; both systems must produce identical stdout, status (incl. death by signal), stderr emptiness and final tree (names, types, contents, permission bits). Bounded; the real side runs under its natural schedule only.",
+    note="Trusted: the replicated 12 lines of yash-cli glue (sys.rs), the probe built-ins, tempfile scratch directories. Two simulator limitations are open known findings (symbolic links not followed by open / in mid-path; open(O_CREAT) creating missing directories); permission-denied behaviour is not exercised (root).",
+    design="4/C19"),
  "C20": dict(
-    technique="property-based testing: exhaustive argument-vector enumeration + proptest vectors against a reference option parser (API half) and combinatorial equivalent-spelling groups for the shell command line (metamorphic); built-in catalogue half pending",
-    text="Exploration: every vector of <=4 (quick) / <=5 (thorough) tokens from a 23-token alphabet x 9 option specifications x 8 modes compared with a reference parser of the utility syntax guidelines (options, arguments, operands, error class and location), random longer vectors, and ~10k groups of equivalent spellings of the shell's own command line that must parse equal (plus malformed ones that must be rejected).",
-    note="Trusted: the reference parser in harness/src/props/c20a.rs. The per-built-in spelling catalogue (O-b) is not yet built; this check covers the generic parser every built-in uses and the shell command line.",
+    technique="property-based testing: exhaustive argument-vector enumeration + proptest vectors against a reference option parser, combinatorial equivalent-spelling groups for the shell command line, and a 222-entry built-in invocation catalogue rewritten into all documented spellings (metamorphic on output, status and state snapshot)",
+    text="Exploration: every vector of <=4 (quick) / <=5 (thorough) tokens from a 23-token alphabet x 9 option specifications x 8 modes compared with a reference parser of the utility syntax guidelines, random longer vectors, ~10k groups of equivalent spellings of the shell's own command line, and 6622 spellings + 1599 malformed variants of 222 catalogue invocations of 31 built-ins (identical stdout/stderr-emptiness/status/state across spellings; rejection without effect for malformed ones).",
+    note="Trusted: the reference parser (c20a.rs), the catalogue and spelling generator (c20b.rs, derived from docs/src/builtins). Built-ins needing a terminal or stopped jobs are covered only by the malformed-variant check.",
     design="4/C20"),
 }
 
